@@ -15,13 +15,16 @@ LEVEL_TEXT = ("Theorems (Coq, all inputs, over the reals): the dispatch of Integ
               "{x1,y1,(z1),x2,y2,(z2)} with 30000 default calls, and the spherical overload passes a vector of norm |r| with cos(polar angle) = cos_theta and azimuth phi, "
               "multiplies by r^2 and integrates f(|r|) to (c2-c1)(phi2-phi1) * RInt r^2 f, i.e. 4 pi * RInt r^2 f on the full sphere; an integrand that is itself defined "
               "through an integral (Integrate re-entered from inside its integrand with any method name and parameter at either level; the model has no state) integrates to the "
-              "integral of x |-> outer(x, RInt inner(x,.)) under the same premise at both levels. "
+              "integral of x |-> outer(x, RInt inner(x,.)) under the same premise at both levels; the answer of a call does not depend on the calls the process made before it "
+              "(the model of a process, run_session, answers each call by the stateless function of its own arguments: C13_answer_independent_of_history, C13_named_exact_after_history). "
               "NOT theorems: the 1e-9 / 1e-6 accuracies of the four boost quadratures (external code) and of libphysica's own Gauss-Legendre and adaptive Simpson rules on smooth "
               "integrands — these are checked on the implementation against closed-form integrals (S4) on every run; the Gallina model (the extracted term, with the library's own two "
               "back ends modelled line by line and the boost quadratures replaced by a stand-in rule) is compared with the C++ on every case: bit for bit for the own back ends, "
               "at the method's accuracy for boost. Also on the implementation only (S4): every front end equals, bit for bit, the back end of the method name called directly and nested "
               "level by level by the harness with the same method_parameter; the fixed rules evaluate n points per level; limits of different axes that coincide; nearly equal limits; "
-              "re-entrant user functions. Known findings K-C13-1: Tanh-Sinh on intervals narrow relative to their position; K-C13-2: a panel of the adaptive Simpson rule accepted by its "
+              "re-entrant user functions; explicit numbers of points of Gauss-Legendre_2 up to several thousand and recursion depths of Gauss-Kronrod up to 100; azimuth ranges anywhere on the real line "
+              "(negative, beyond 2 pi, exact quarter/half/full/double turns) and cosine ranges in every orientation; call histories (sessions of several calls in one process, every case line in a process "
+              "of its own forked before any call of the library): each answer is compared bit for bit with the answer of the same call in a process that has made no other call, besides the model and the closed form. Known findings K-C13-1: Tanh-Sinh on intervals narrow relative to their position; K-C13-2: a panel of the adaptive Simpson rule accepted by its "
               "|S2-S| test although it is off by far more than the tolerance.")
 LEVEL_NOTE = ("Coq 8.16.1 kernel; theorems over R use the standard library's real-number axioms and Coquelicot's RInt (axioms listed in the evidence); premises carried by the theorems: "
               "exactness of the selected 1-D back end on the integrands that occur, continuity/integrability of the integrand; boost::math::quadrature (trapezoidal, gauss<30>, "
@@ -30,7 +33,9 @@ TOL = (1e-12, 0.0)
 ALLOW_CRASH = True          # a crash is reported by predicates() below (same message), with a signature that separates the known abort K-C13-1 from any other
 TRUSTED = ["boost::math::quadrature back ends are a Section variable of the model (instantiated by a 2-panel 30-point Gauss-Legendre stand-in in the OCaml driver)",
            "closed-form antiderivatives used by the S4 predicates (checks/C13.py) evaluated with Python's math library"]
-ASSUMPTIONS = ["accuracy clauses (1e-9 relative; 1e-6 Trapezoidal) are decided on the implementation against closed-form integrals for the generated smooth families, with slack dim*accuracy*L1-norm of the integrand; they are not theorems",
+ASSUMPTIONS = ["direction-dependent integrands of the spherical overload (linear in the components of the vector) depend on the direction through vz only where the cosine range comes within 0.1 of a pole: vx, vy carry sqrt(1 - cos_theta^2), "
+               "which is not a smooth function of the integration variable there",
+               "accuracy clauses (1e-9 relative; 1e-6 Trapezoidal) are decided on the implementation against closed-form integrals for the generated smooth families, with slack dim*accuracy*L1-norm of the integrand; they are not theorems",
                "'smooth' is instantiated as: damped oscillations exp(-a v)cos(w v) with at most two periods on the interval, 1/(1+k v^2) with k<=2, Gaussians exp(-k (v-mu)^2) with k<=4, polynomials of degree <= 3, on intervals of width 0.5..1.5 "
                "(and of widths down to one ulp, and at offsets up to 1e9, in one dimension, with the rounding of the abscissae 3*2^-53 max|x| sup|g'| |b-a| added to the slack); for Gauss-Legendre_2 with an explicit number n >= 48 of points also "
                "sharply peaked Gaussians whose classical n-point Gauss error bound on the Bernstein ellipse is below 1e-11 of the integral (for which the default 30 points are not enough)",
@@ -408,7 +413,7 @@ def gen_parameters(rng, big):
         (x1, x2), (y1, y2) = limits(rng, 0, rng.random() < 0.5), limits(rng, 1, rng.random() < 0.5)
         fx, fy = rand_fac(rng, x1, x2), rand_fac(rng, y1, y2)
         cs.append(Case(f"nested2d Gauss-Legendre_2 {n} {hx(x1)} {hx(x2)} {hx(y1)} {hx(y2)} {product_text([fx, fy], 'xy')} # nd {fx.ann()} {fy.ann()}", ("nested2d", "Gauss-Legendre_2", "points-ladder", "p")))
-    for n in ([33, 50, 64, 65] if big else [rng.choice([33, 50])]):
+    for n in ([33, 50, 64, 65] if big else [rng.choice([33, 40])]):
         lims = [limits(rng, k, rng.random() < 0.5) for k in range(3)]
         facs = [rand_fac(rng, *lims[k]) for k in range(3)]
         flat = " ".join(hx(x) for lm in lims for x in lm)
@@ -500,6 +505,9 @@ def gen_angles(rng, big, P):
                 cs.append(Case(f"spherical {method} {p} {hx(r1)} {hx(r2)} {hx(c1)} {hx(c2)} {hx(f1)} {hx(f2)} {g.text(NORM)} # sphr {g.ann()}", tags + ("radial",)))
             else:
                 co = [rng.uniform(0.5, 2.0) * rng.choice([-1, 1]) for _ in range(3)] + [rng.uniform(3.0, 6.0)]
+                # vx and vy carry the factor sqrt(1 - cos_theta^2), which is not smooth in the integration variable at the poles: where the cosine range
+                # comes close to them the integrand depends on the direction through vz only
+                if max(abs(c1), abs(c2)) > 0.9: co[0] = co[1] = 0.0
                 txt = f"+ * c {hx(co[0])} x + * c {hx(co[1])} y + * c {hx(co[2])} z c {hx(co[3])}"
                 cs.append(Case(f"spherical {method} {p} {hx(r1)} {hx(r2)} {hx(c1)} {hx(c2)} {hx(f1)} {hx(f2)} {txt} # sphd " + " ".join(hx(x) for x in co), tags + ("directional",)))
     return cs
